@@ -1333,7 +1333,11 @@ impl<'a> Exec<'a> {
             if self.stop {
                 break;
             }
-            let on_thread = t.on_thread.get(k % t.on_thread.len().max(1)).copied().unwrap_or(false);
+            let mut on_thread = t.on_thread.get(k % t.on_thread.len().max(1)).copied().unwrap_or(false);
+            // A single-issuer Ring (K14) stays on the thread it is bound to.
+            if matches!(obj, Obj::Ring) && self.world.cfg_single_issuer {
+                on_thread = false;
+            }
             if on_thread {
                 self.feat("helper-thread-drop");
             }
